@@ -335,6 +335,66 @@ def check_default_src(ctx):
                    'a rule store is built without the enforcer\'s default '
                    'rule: unknown names would not fall back to it')
     ctx.floor('C03.DEFAULT-SRC', nsites, 1, 'Rules construction sites')
+    # ... and the store the enforcer decides on is always one of those:
+    # every rebind of self.rules installs a store built with the enforcer's
+    # default rule (adopting a caller's Rules object would carry *its*
+    # default rule, or none)
+    from ..dte import inline_helpers as _ih
+    nre = 0
+    for f in sorted(enf_cls.methods.values(), key=lambda x: x.qual):
+        if not any(isinstance(n, (ast.Assign, ast.AnnAssign)) and any(
+                self_attr(t) == 'rules' for t in (
+                    n.targets if isinstance(n, ast.Assign) else [n.target]))
+                for n in walk_no_nested(f.node)):
+            continue
+        if f.name == 'load_rules':
+            from ..load_model import load_table
+            tf = load_table(ctx)
+        else:
+            tf = Table(prog, f, handler_paths=False)
+        seen = set()
+        for p in tf.paths:
+            for e in p.events:
+                if e.kind != 'store' or U(e.node) != 'self.rules':
+                    continue
+                v = tf.expand(e.value)
+
+                def builds(v, frame_fn, depth=2):
+                    r = prog.resolve(frame_fn.module, v.func) \
+                        if isinstance(v, ast.Call) else None
+                    if r in (RULES, RULES + '.load', RULES + '.from_dict',
+                             RULES + '.load_json'):
+                        dr = kwarg(v, 'default_rule', 1)
+                        return dr is not None and U(dr) == \
+                            'self.default_rule'
+                    g = prog.callee_of(frame_fn, v) if isinstance(
+                        v, ast.Call) else None
+                    if g is not None and depth and g.cls is enf_cls:
+                        # a factory method: all it returns are such stores
+                        tg = Table(prog, g, handler_paths=False)
+                        rets = [q for q in tg.paths
+                                if q.outcome.kind == 'return']
+                        return bool(rets) and all(
+                            q.outcome.expr is not None and builds(
+                                tg.expand(q.outcome.expr), g, depth - 1)
+                            for q in rets)
+                    return False
+                ok = builds(v, prog.functions.get(e.frame, f))
+                k = (e.line, ok)
+                if k in seen:
+                    continue
+                seen.add(k)
+                nre += 1
+                ctx.ob('C03.DEFAULT-SRC', ok, '%s:%d' % (ctx.where(
+                    f.module, f.node).split(':')[0], e.line), f.qual,
+                    e.text()[:90],
+                    'the store installed is built with the enforcer\'s '
+                    'default rule' if ok else
+                    'self.rules is rebound to something that is not a Rules '
+                    'store built with self.default_rule: the store can carry '
+                    'another default rule (or none), so unknown names no '
+                    'longer fall back to the configured default')
+    ctx.floor('C03.DEFAULT-SRC', nre, 1, 'rebinds of the rule store')
     # Rules.__init__ keeps it; load/from_dict forward it
     rinit = prog.func(RULES + '.__init__')
     tr = Table(prog, rinit)
@@ -398,3 +458,9 @@ def check(ctx):
     check_fail_closed(ctx)
     check_deny_reasons(ctx)
     check_default_src(ctx)
+    # a name that has a registered default is decided by that default, not
+    # by the default rule: the merge of registered defaults runs on every
+    # load (= C10.DEFAULTS)
+    from . import c10
+    ctx.borrow('C03.DEFINED', c10.check_reapply_and_reset,
+               only=('C10.DEFAULTS',))
